@@ -73,6 +73,7 @@ type Exec struct {
 	writtenOuter   map[string]*Sort // writes to objects not fresh w.r.t. the enclosing function
 	parentFresh    map[*Term]bool
 	iterStart      map[*ssa.BasicBlock]*State
+	evalLoop       *ssa.BasicBlock // loop whose clauses are being evaluated
 }
 
 type unsupported struct{ msg string }
@@ -425,6 +426,8 @@ func (ex *Exec) enterLoop(st *State, h *ssa.BasicBlock, pred *ssa.BasicBlock) bo
 		}
 	}
 	where := fmt.Sprintf("loop %d of %s", ord, funcShort(fr.fn))
+	ex.evalLoop = h
+	defer func() { ex.evalLoop = nil }()
 	if isBackEdge(pred, h) {
 		if ex.collect {
 			return false
